@@ -185,7 +185,7 @@ class SimNetworkStack(BaseNetworkStack):
         self.puts: List[Any] = []
         self.sockets: List[Any] = []
         # socket id -> purpose id; identity as in SquidASM unless a property's run installs another bijection
-        self.pfun: Any = lambda s: s
+        self.pfun: Any = lambda s, r=None: s      # (socket id, remote node id) -> purpose id
         self.refuse: Any = None      # injected fault: predicate(request) -> True = the stack refuses the request
         self.refused = 0
 
@@ -204,7 +204,7 @@ class SimNetworkStack(BaseNetworkStack):
         return None
 
     def get_purpose_id(self, remote_node_id: int, epr_socket_id: int) -> int:
-        return self.pfun(epr_socket_id)
+        return self.pfun(epr_socket_id, remote_node_id)
 
 
 def flavour_of(name: str):
